@@ -98,6 +98,7 @@ func c11Literal(form int, body string) string {
 
 type c11Case struct {
 	choices []int
+	ctx     int // 0: the literal alone on its line; 1: followed on the same line by + "Z" (the token must end where it ends)
 	form    int
 	body    string
 	want    string
@@ -116,7 +117,7 @@ func c11SpecialDriver(maxLen int) func(c *explore.Chooser) *c11Case {
 		for i := 0; i < n; i++ {
 			b.WriteString(c11Special[c.Choose(len(c11Special))])
 		}
-		return &c11Case{form: form, body: b.String(), kind: "special-alphabet"}
+		return &c11Case{form: form, body: b.String(), kind: "special-alphabet", ctx: c.Choose(2)}
 	}
 }
 
@@ -135,7 +136,7 @@ func c11CharDriver() func(c *explore.Chooser) *c11Case {
 		if esc {
 			body = "a\\" + ch + "b"
 		}
-		return &c11Case{form: form, body: body, kind: "single-character"}
+		return &c11Case{form: form, body: body, kind: "single-character", ctx: c.Choose(2)}
 	}
 }
 
@@ -152,7 +153,7 @@ func c11HoleDriver() func(c *explore.Chooser) *c11Case {
 			b.WriteString(holes[c.Choose(len(holes))])
 			b.WriteString(texts[c.Choose(len(texts))])
 		}
-		return &c11Case{form: form, body: b.String(), kind: "holes"}
+		return &c11Case{form: form, body: b.String(), kind: "holes", ctx: c.Choose(2)}
 	}
 }
 
@@ -183,7 +184,10 @@ func checkC11(c *core.Ctx) {
 				c.AddInt("out_of_domain", 1)
 				return true
 			}
-			key := fmt.Sprint(cur.form) + "|" + cur.body
+			if cur.ctx == 1 {
+				text += "Z"
+			}
+			key := fmt.Sprint(cur.form, cur.ctx) + "|" + cur.body
 			if seen[key] {
 				return true
 			}
@@ -243,7 +247,11 @@ func c11Program(cs *c11Case, k int) gobatch.Prog {
 			sb.WriteString("  let b = true\n")
 		}
 	}
-	fmt.Fprintf(&sb, "  let v = %s\n  frt.Printf1 \"%%s\" v\n", c11Literal(cs.form, cs.body))
+	lit := c11Literal(cs.form, cs.body)
+	if cs.ctx == 1 {
+		lit += " + \"Z\""
+	}
+	fmt.Fprintf(&sb, "  let v = %s\n  frt.Printf1 \"%%s\" v\n", lit)
 	return gobatch.Prog{Defs: sb.String(), Run: fmt.Sprintf("run_%d", k)}
 }
 
@@ -276,7 +284,7 @@ func c11RunBatch(c *core.Ctx, sc *impl.Scratch, fc string, part []*c11Case) {
 		cs := part[k]
 		c.Count(1, 0, 0, 1)
 		special := strings.ContainsAny(cs.body, "\\\"`{}%$\n") || len(cs.body) != len([]rune(cs.body))
-		c.DistinctNT(fmt.Sprint(cs.form)+"|"+cs.body, special)
+		c.DistinctNT(fmt.Sprint(cs.form, cs.ctx)+"|"+cs.body, special)
 		c.Hist("by_form", c11FormNames[cs.form], 1)
 		c.Hist("by_kind", cs.kind, 1)
 		c.Sample(map[string]any{"literal": c11Literal(cs.form, cs.body), "denotes": cs.want})
